@@ -15,6 +15,7 @@ META = {
                    "(collected from such an iterator, or the per-pattern file lists handed to the report generators); sanitizers = sort* on the collected "
                    "Vec with a total key (the pattern's discriminant / Ord of (file, lines)); order-insensitive sinks = set/map inserts and removals, appends to "
                    "the map entry keyed by the loop's own (distinct) key; ordered sinks = String::push_str/+, Vec::push/append whose receiver outlives the loop. "
+                   "`map.insert(k, v)` on a map that outlives an unordered loop is a last-one-wins sink unless k is that loop's own distinct key. "
                    "A source reaching an ordered sink unsanitised, or a loop exit other than exhaustion inside an unordered loop, is a violation naming both. "
                    "R13.deferred: analyze_dir pushes (file, lines) in listing order into the returned map; this is discharged only because every consumer sorts "
                    "each per-pattern list before rendering (checked). R13.noseed: no rand / time / pid / env reads in the analysed call graph.",
@@ -22,6 +23,8 @@ META = {
                     "BTreeSet/BTreeMap iterate in key order (std contract)"],
     "floors": {"R13.loop": 12, "R13.sanitizer": 6, "R13.deferred": 3},
 }
+
+MAP_INSERT = ("std::collections::HashMap::<K, V, S, A>::insert", "std::collections::BTreeMap::<K, V, A>::insert", "std::collections::HashMap::<K, V, S>::insert")
 
 SEEDS = ("rand::", "std::time::", "std::process::id", "std::env::var", "std::env::vars", "std::thread::current", "std::collections::hash_map::RandomState::new",
          "std::hash::RandomState::new", "std::time::SystemTime::now", "std::time::Instant::now")
@@ -172,6 +175,30 @@ def run(ctx, crate):
                               False, site=s.where, expected="sort (or BTree collection) between the unordered source and the ordered sink",
                               found="source %s at %s; sink receiver %s" % (show(it)[:80], lp.site.where, show(root)[:80]),
                               example="two runs over the same directory; or the same files created in a different order"))
+    # last-wins writes: `map.insert(k, v)` replaces what an earlier iteration stored under k, so on a map that outlives an unordered loop the survivor
+    # is chosen by the iteration order (set inserts and `entry(k).or_insert(..)` + append are not: they keep both)
+    for b in sc.values():
+        if b.derived:
+            continue
+        for lp in O.loops_of_body(b):
+            if lp.order != "hash":
+                continue
+            src = "listing-ordered" if "ReadDir" in lp.self_ty else "hash-ordered"
+            own_key = "HashMap" in lp.self_ty or "hash_map" in lp.self_ty or "BTreeMap" in lp.self_ty or "btree_map" in lp.self_ty
+            for s in S.call_sites(b):
+                if s.bb not in lp.blocks or len(s.args) != 3 or not s.path.startswith(MAP_INSERT):
+                    continue
+                root = O.root_object(s.args[0])
+                cb = O.creation_block(b, root)
+                if (cb is not None and cb in lp.blocks) or root[0] == "const":
+                    continue
+                if own_key and T.field_of(s.args[1]) == (("elem", lp.iterable), 0):
+                    obs.append(Ob("R13.sink", b.path, "map insert under the loop's own distinct key", True, site=s.where, found=show(s.args[1])[:120]))
+                    continue
+                obs.append(Ob("R13.taint", b.path, "%s loop overwrites map entries (insert: last one wins) on a map that outlives the loop" % src, False, site=s.where,
+                              expected="entry(key).or_insert(..) followed by an append / extend, or a key that is distinct per iteration",
+                              found="source %s at %s; key %s; map %s" % (show(lp.iterable)[:60], lp.site.where, show(s.args[1])[:60], show(root)[:60]),
+                              example="dir/A.sol and dir/sub/B.sol with findings of the same pattern: which file's findings survive depends on the listing order"))
     # order-sensitive operations (dedup of neighbours, first/last, truncation, positional access) on a discovery- / hash-ordered list
     # before it is sorted make the result depend on the discovery order
     SENSITIVE = ("dedup", "dedup_by", "dedup_by_key", "truncate", "pop", "first", "last", "remove", "swap_remove", "split_off", "drain", "get", "index",
